@@ -64,9 +64,9 @@ theorem ItemViolates.not_ok {ds : List Def} (hns : NamespacesOk ds) {m : Mode} {
     cases r <;> simp only [ItemViolates] at hv
     · -- missingNamespace
       cases ns with
-      | none => simp [ItemViolates] at hv
+      | none => simp at hv
       | some n =>
-        simp only [ItemViolates] at hv
+        simp only at hv
         obtain ⟨hnp, hloc⟩ := hv
         cases m with
         | compat =>
@@ -90,9 +90,9 @@ theorem ItemViolates.not_ok {ds : List Def} (hns : NamespacesOk ds) {m : Mode} {
   | accountRef ns s =>
     cases r <;> simp only [ItemViolates] at hv
     · cases ns with
-      | none => simp [ItemViolates] at hv
+      | none => simp at hv
       | some n =>
-        simp only [ItemViolates] at hv
+        simp only at hv
         obtain ⟨hnp, hloc⟩ := hv
         cases m with
         | compat =>
